@@ -5,6 +5,7 @@ CONSTANTS
   WithHalves = TRUE
   Dev_PowKeepsZeros = FALSE
 INVARIANT OperationalIsDeclarative
+INVARIANT EditLaws
 INVARIANT Canonical
 INVARIANT Commutative
 INVARIANT Associative
